@@ -298,6 +298,8 @@ type sockRun struct {
 	sendErrs int
 	sendOK   int
 	closed   bool
+	endAt    Stamp // the instant the end (Close, read error) was triggered
+	pending  bool  // the consumer was not reading when the end came
 }
 
 func runSocket(e *Env, hostile bool) {
@@ -311,12 +313,15 @@ func runSocket(e *Env, hostile bool) {
 	c.Senders = e.Choose("cfg.senders", 9)
 	c.Sends = 1 + e.Choose("cfg.sends", 6)
 	c.Consumer = []string{"ready", "slow"}[e.Choose("cfg.consumer", 2)]
-	c.End = []string{"close", "close", "peer-eof", "peer-rst", "read-error"}[e.Choose("cfg.end", 5)]
+	c.End = []string{"close", "close", "peer-eof", "peer-rst", "read-error", "close-pending", "close-pending"}[e.Choose("cfg.end", 7)]
 	c.Dribble = []string{"whole", "bytes", "random", "header-split", "coalesce"}[e.Choose("cfg.dribble", 5)]
 	c.TCPCut = e.Choose("cfg.tcpcut", 2) == 1
 	c.Sticky = []int{600, 0, 850}[e.Choose("cfg.sticky", 3)]
 	c.Gap = e.PickDur("cfg.gap", 0, 100*time.Microsecond, 2*time.Millisecond)
 	if c.Kind != "tcp" && (c.End == "peer-eof" || c.End == "peer-rst") {
+		c.End = "close"
+	}
+	if hostile && c.End == "close-pending" {
 		c.End = "close"
 	}
 	if c.Kind == "tcp" && c.End == "read-error" {
@@ -382,9 +387,13 @@ func runSocket(e *Env, hostile bool) {
 	}
 	// consumer
 	consumerDone := false
+	paused := false
 	s.Spawn("consumer", func() {
 		in := r.sock.Inbound()
 		for {
+			if paused {
+				s.WaitUntil("consumer-paused", func() bool { return !paused })
+			}
 			if c.Consumer == "slow" && e.Choose("wl.cslow", 3) == 0 {
 				s.SleepFor(time.Duration(1+e.Choose("wl.cslowamt", 20)) * 100 * time.Microsecond)
 			}
@@ -474,9 +483,29 @@ func runSocket(e *Env, hostile bool) {
 	e.WaitDone("workload", 30*time.Second, func() bool { return peerDone && sendersLeft == 0 })
 	s.SleepFor(50 * time.Millisecond) // everything in flight arrives and is consumed
 	// the end
+	r.endAt = e.Stamp()
 	switch c.End {
 	case "close":
 		e.Call("close", 5*time.Second, func() { r.sock.Close(); r.closed = true })
+	case "close-pending":
+		// the application stops reading, more frames arrive (one sits in the receiver's
+		// hand-over), then the socket is closed; afterwards the application drains the channel
+		paused = true
+		r.pending = true
+		var stream []byte
+		for i := 0; i < 3; i++ {
+			f := gen.valid(c.Kind == "router")
+			r.sent = append(r.sent, f)
+			r.transmit(c.Kind, udpPeer, clientAddr, groupAddr, &stream, f.raw)
+		}
+		if c.Kind == "tcp" {
+			r.flushTCP(tcpPeer, stream)
+		}
+		s.SleepFor(5 * time.Millisecond)
+		r.endAt = e.Stamp()
+		e.Call("close", 5*time.Second, func() { r.sock.Close(); r.closed = true })
+		s.SleepFor(time.Millisecond)
+		paused = false
 	case "peer-eof":
 		tcpPeer.Close()
 	case "peer-rst":
@@ -604,9 +633,13 @@ func checkSocket(r *sockRun, badHeader bool) {
 			stream = stream[tl:]
 		}
 	default:
-		// what the library's socket actually read (datagrams may legally be dropped by a full buffer)
+		// every datagram that arrived at the library's socket before it was closed (the fabric's
+		// buffer of 256 datagrams never overflows at these volumes)
 		for _, rec := range e.F.Records() {
-			if rec.Kind == "read" && (strings.HasPrefix(rec.Sock, "udp:"+clientIP) || strings.HasPrefix(rec.Sock, routerLbl)) {
+			if rec.Kind == "arrive" && (strings.HasPrefix(rec.Sock, "udp:"+clientIP) || strings.HasPrefix(rec.Sock, routerLbl)) {
+				if r.endAt.Seq != 0 && rec.Seq > r.endAt.Seq {
+					continue
+				}
 				addWant(rec.Data, "datagram")
 			}
 		}
@@ -625,7 +658,9 @@ func checkSocket(r *sockRun, badHeader bool) {
 	if len(r.got) > len(want) && !endedEarly {
 		e.Violate(prop, "receiver-extra-frame", "Inbound yielded %d frames, only %d well-formed frames were transmitted; extra: %s", len(r.got), len(want), dump(r.got[len(want)]))
 	}
-	if len(r.got) < len(want) {
+	if len(r.got) < len(want) && r.pending && len(want)-len(r.got) <= 3 {
+		// frames that were still on their way to the application when it closed the socket
+	} else if len(r.got) < len(want) {
 		// frames may be missing only if the end came first (close racing with reception is
 		// avoided by the settle pause, so everything transmitted should be there)
 		if !(c.Kind == "tcp" && endedEarly) {
